@@ -48,6 +48,7 @@ type vfSend struct {
 	OK    bool   // outcome reported to the node
 	Seq   int    // global order
 	Gen   int    // incarnation of the node (incremented by a restart)
+	At    time.Time
 	Panic string
 }
 
@@ -61,6 +62,7 @@ type vfPeer struct {
 	ch      chan cla.ConvergenceStatus
 	mu      sync.Mutex
 	script  []bool // outcomes of the next sends (true = success); empty = success
+	idScript map[string][]bool // outcomes of the next sends of one bundle (by wire ID)
 	failAll bool
 	gone    int32
 	closed  int32
@@ -87,10 +89,21 @@ func (p *vfPeer) Send(b bpv7.Bundle) (err error) {
 	// a real convergence layer serialises the bundle inside Send
 	var buf bytes.Buffer
 	werr := b.WriteBundle(&buf)
+	s := vfSend{Peer: p.name, Raw: append([]byte(nil), buf.Bytes()...)}
+	if werr == nil {
+		if w, e := vk.ReadBundle(s.Raw); e == nil {
+			s.ID = w.ID()
+		}
+	} else {
+		s.Panic = "WriteBundle: " + werr.Error()
+	}
 	p.mu.Lock()
 	ok := true
 	if p.failAll {
 		ok = false
+	} else if sc, has := p.idScript[s.ID]; has && len(sc) > 0 {
+		// outcomes scripted for one particular bundle
+		ok, p.idScript[s.ID] = sc[0], sc[1:]
 	} else if len(p.script) > 0 {
 		ok, p.script = p.script[0], p.script[1:]
 	}
@@ -99,14 +112,7 @@ func (p *vfPeer) Send(b bpv7.Bundle) (err error) {
 	if werr != nil {
 		ok = false
 	}
-	s := vfSend{Peer: p.name, Raw: append([]byte(nil), buf.Bytes()...), OK: ok}
-	if werr == nil {
-		if w, e := vk.ReadBundle(s.Raw); e == nil {
-			s.ID = w.ID()
-		}
-	} else {
-		s.Panic = "WriteBundle: " + werr.Error()
-	}
+	s.OK = ok
 	p.sim.record(s)
 	if hold != nil {
 		<-hold
@@ -174,6 +180,8 @@ type vfSim struct {
 	markerN uint64
 	gen     int
 	trace   []string
+
+	scriptNext map[string]map[string][]bool // peer -> bundle ID -> outcomes, for a peer that is about to be added
 }
 
 const vfNodeName = "dtn://node/"
@@ -267,6 +275,7 @@ func (s *vfSim) record(x vfSend) {
 	s.mu.Lock()
 	x.Seq = len(s.sends)
 	x.Gen = s.gen
+	x.At = time.Now()
 	s.sends = append(s.sends, x)
 	s.mu.Unlock()
 }
@@ -337,6 +346,10 @@ func (s *vfSim) addPeer(name string) *vfPeer {
 		old.mu.Unlock()
 	} else {
 		s.order = append(s.order, name)
+	}
+	if sc, ok := s.scriptNext[name]; ok {
+		p.idScript = sc
+		delete(s.scriptNext, name)
 	}
 	s.peers[name] = p
 	s.core.RegisterConvergable(p)
